@@ -136,3 +136,46 @@ def _newton_cotes_weights(m):
                 M[r] = [v - f * u for v, u in zip(M[r], M[c])]
     _NC[m] = [M[i][m] for i in range(m)]
     return _NC[m]
+
+
+def collocation(T, p, periodic, ncells, pts):
+    """A[i][j] = B_j(pts[i]) for the (wrapped, if periodic) basis functions -- independent of pygyro"""
+    n = ncells if periodic else ncells + p
+    A = []
+    for x in pts:
+        cell = find_cell_fraction(T, p, x)
+        B = cell_basis(T, p, cell, x, 0)
+        A.append([Fr(B[j]) + (Fr(B[j + ncells]) if periodic and j < p else 0) for j in range(n)])
+    return A
+
+
+def invert(A):
+    n = len(A)
+    M = [[Fr(A[i][j]) for j in range(n)] + [Fr(int(i == j)) for j in range(n)] for i in range(n)]
+    for c in range(n):
+        piv = next(r for r in range(c, n) if M[r][c] != 0)
+        M[c], M[piv] = M[piv], M[c]
+        pv = M[c][c]
+        M[c] = [v / pv for v in M[c]]
+        for r in range(n):
+            if r != c and M[r][c] != 0:
+                f = M[r][c]
+                M[r] = [v - f * u for v, u in zip(M[r], M[c])]
+    return [row[n:] for row in M]
+
+
+def interpolant_coeffs(T, p, periodic, ncells, pts, data):
+    """coefficients (full length ncells+p, wrapped if periodic) of the spline interpolating `data` at `pts`;
+    data may be proxies (linear forms are built with +,*)"""
+    Ainv = invert(collocation(T, p, periodic, ncells, pts))
+    n = len(Ainv)
+    c = []
+    for i in range(n):
+        acc = 0
+        for j in range(n):
+            if Ainv[i][j] != 0:
+                acc = acc + data[j] * Ainv[i][j]
+        c.append(acc)
+    if periodic:
+        c = c + c[:p]
+    return c
